@@ -20,7 +20,8 @@ EXPLANATION = (
     "(R5) the configuration header formats data.n, data.m, nnz(data.P), nnz(data.A), cones.len(), "
     "presolver.count_reduced() next to their labels."
     " (R6) cone-size list of the header: the closing entry is the last cone of the type, entries are numel() of the cones with the matching tag; (R7) the solution copies iterations and residuals from the info on every path (C03.R1 re-run)."
-    " (R8) the 'removed N constraints' figure: bookkeeping of the presolve reduction map (C09.R2 re-run).")
+    " (R8) the 'removed N constraints' figure: bookkeeping of the presolve reduction map (C09.R2 re-run)."
+    " (R9) every print_to_* installs a freshly constructed target unconditionally; (R10) the header asks for the per-type line of every variant of SupportedConeTag.")
 ASSUMPTIONS = ['rustc MIR construction and trait resolution are correct',
                'std::io::Write::write_fmt writes exactly the formatted bytes through Write::write (write_all loop)']
 
@@ -541,6 +542,54 @@ def cone_dims_list(rep, F, tag):
     R.guard(body)
 
 
+def fresh_targets(rep, F, tag):
+    """The three capturing targets receive identical bytes for the same solve only if selecting a target always starts it empty: every
+    print_to_* replaces the target unconditionally by a freshly constructed one (a buffer that is kept when "already buffering" still
+    holds the previous solve's log)."""
+    R = rep.rule('C20.R9', 'every print_to_* installs a freshly constructed target unconditionally')
+
+    def body():
+        want = {'print_to_stdout': 'PrintTarget::Stdout(stdout())', 'print_to_file': 'PrintTarget::File(arg2)', 'print_to_stream': 'PrintTarget::Stream(arg2)',
+                'print_to_sink': 'PrintTarget::Sink(sink())', 'print_to_buffer': 'PrintTarget::Buffer(new())'}
+        n = 0
+        for nm, w in want.items():
+            fs = [x for x in F.find(name=nm) if 'PrintTarget' in (x.impl_self or '')]
+            if len(fs) != 1:
+                raise AnchorError('%s for PrintTarget matched %d functions' % (nm, len(fs)))
+            f = fs[0]
+            for val, ret, ev, tr in Walker(f).leaves():
+                if ret[0] == 'diverge':
+                    continue
+                st = [str(e[2]) for e in ev if e[0] == 'store' and str(e[1]) == 'self']
+                n += 1
+                R.check(st == [w], 'fresh|%s|%s%s' % (nm, sorted(val.values()), tag),
+                        '%s leaves the target as %s on the path %s; it must install %s on every path (otherwise the new capture starts with stale content)' % (nm, st or 'it was', {k[:40]: v for k, v in val.items()}, w), f.loc())
+        R.check(n >= 5, 'count' + tag, 'only %d target-selection paths analysed' % n)
+
+    R.guard(body)
+
+
+def cone_type_lines(rep, F, tag):
+    """"the configuration header reports the true cone counts": the per-type lines are produced by one call of _print_conedims_by_type per
+    cone tag; every variant of SupportedConeTag (in this build configuration) must be asked for, otherwise cones of that type appear in
+    the total but in no line."""
+    R = rep.rule('C20.R10', 'the header asks _print_conedims_by_type for every variant of SupportedConeTag')
+
+    def body():
+        variants = {v['n'] for v in F.adt('SupportedConeTag')['variants']}
+        f = F.one(name='print_configuration')
+        got = set()
+        for c in f.calls:
+            if c.callee.name != '_print_conedims_by_type':
+                continue
+            a = canon(f.sym_operand(c.args[2]))
+            for m in re.finditer(r'SupportedConeTag::(\w+)', a):
+                got.add(m.group(1))
+        R.check(variants <= got, 'all-tags' + tag, 'the header prints per-type lines for %s only; missing: %s (those cones are counted in the total but listed nowhere)' % (sorted(got), sorted(variants - got)), f.loc())
+
+    R.guard(body)
+
+
 def run(ctx, rep, tier):
     for cfg in CONFIGS:
         F = ctx.facts(cfg)
@@ -553,6 +602,8 @@ def run(ctx, rep, tier):
         cone_tags(rep, F, tag)
         settings_header(rep, F, tag)
         cone_dims_list(rep, F, tag)
+        fresh_targets(rep, F, tag)
+        cone_type_lines(rep, F, tag)
         # 'presolve: removed N constraints' is mfull - mreduced: the bookkeeping of the reduction map (C09.R2 re-run)
         from . import c09
         c09.drop_condition(c04._Ren(rep, 'C09.R2', 'C20.R8'), F, tag)
